@@ -43,4 +43,96 @@ theorem Moved.rfl' {w : WM} (hok : RowsOK w) {e : Handle} {pi i : Nat} {prow : R
   subst hent
   rfl
 
+/-- the single move of a pack on an existing entity -/
+theorem packMoved_existing {w : WM} {iss : List Handle} (hi : Inv ⟨w, iss⟩) {e : Handle} {k pi i : Nat} {prow : Row}
+    (hrow : (w.arch pi).rows[i]? = some prow) (hent : prow.ent = e)
+    (hloc : w.locOf e = ⟨some pi, i⟩) (hord : ordOf iss e = some k) (pf : PackSt) (hfok : MaskOk pf.final)
+    (hfcl : ClosedUnder w.deps pf.final) :
+    ∃ vals1,
+      Moved w (packMoved info e false (w.arch pi).mask (w.arch pi).shared w pf).1 e
+        (w.getArch pf.final (w.arch pi).shared).2 vals1 ∧
+      KeysSame (w.getArch pf.final (w.arch pi).shared).1 (packMoved info e false (w.arch pi).mask (w.arch pi).shared w pf).1 ∧
+      ((packMoved info e false (w.arch pi).mask (w.arch pi).shared w pf).1.arch
+        (w.getArch pf.final (w.arch pi).shared).2).mask = pf.final ∧
+      ((packMoved info e false (w.arch pi).mask (w.arch pi).shared w pf).1.arch
+        (w.getArch pf.final (w.arch pi).shared).2).shared.data = (w.arch pi).shared.data ∧
+      vals1.length = pf.final.length ∧
+      (∀ x ∈ pf.final, x ∉ Mask.ofList (pf.src.map (·.1)) → vals1.getD (pf.final.idxOf x) none =
+        if x ∈ (w.arch pi).mask then prow.vals.getD ((w.arch pi).mask.idxOf x) none else defaultVal info x) ∧
+      (packMoved info e false (w.arch pi).mask (w.arch pi).shared w pf).2.map (cbAbs iss) =
+        ((pf.final.filter (fun c => !(w.arch pi).mask.contains c && (info c).callbacks &&
+            !(Mask.ofList (pf.src.map (·.1))).contains c)).map (fun x => ((true, x, k) : SCb)) ++
+         ((w.arch pi).mask.filter (fun c => (info c).callbacks && !pf.final.contains c)).map
+            (fun x => ((false, x, k) : SCb))).map some := by
+  have hpi : pi < w.archs.length := lt_of_row hrow
+  have hpm : MaskOk (w.arch pi).mask := hi.keys.masks pi hpi
+  have hplen : prow.vals.length = (w.arch pi).mask.length := hi.rows.vals pi i prow hrow
+  have hcm : closedMask w.deps pf.final = pf.final := closedMask_eq_self hfok hfcl
+  have hgloc : (w.getArch pf.final (w.arch pi).shared).1.locOf e = ⟨some pi, i⟩ := by
+    unfold WM.locOf; rw [Mustache.Proofs.Rows.getArch_locs]; exact hloc
+  have hkey := getArch_key w pf.final (w.arch pi).shared
+  rw [hcm] at hkey
+  rcases getArch_move info hi.rows pf.final (w.arch pi).shared e pi i (Mask.ofList (pf.src.map (·.1))) prow hrow hent
+    (fun _ => hfok) with ⟨hti, hnone⟩ | ⟨hti, w2, cbs1, hsome, hm, hmask, hshd⟩
+  · -- no move: the entity's own archetype
+    have hw1 : (w.getArch pf.final (w.arch pi).shared).1 = w := by
+      rcases Mustache.Proofs.Rows.getArch_cases w pf.final (w.arch pi).shared with ⟨h, _⟩ | ⟨_, h, _⟩
+      · exact h
+      · rw [hti] at h; omega
+    have hfin : pf.final = (w.arch pi).mask := by
+      have := hkey.1; rw [hti, hw1] at this; exact this.symm
+    have hpk : packMoved info e false (w.arch pi).mask (w.arch pi).shared w pf = (w, []) := by
+      unfold packMoved
+      simp only [Bool.false_eq_true, if_false, hgloc]
+      simp only [hti, decide_true, Bool.true_or, if_true, hw1]
+    rw [hpk, hti, hw1]
+    refine ⟨prow.vals, Moved.rfl' hi.rows hloc hrow hent, KeysSame.refl w, hfin.symm, rfl, by rw [hfin]; exact hplen, ?_, ?_⟩
+    · intro x hx _
+      rw [hfin] at hx ⊢
+      rw [if_pos hx]
+    · rw [hfin]
+      have h1 : (w.arch pi).mask.filter (fun c => !(w.arch pi).mask.contains c && (info c).callbacks &&
+          !(Mask.ofList (pf.src.map (·.1))).contains c) = [] := by
+        rw [List.filter_eq_nil_iff]; intro x hx; simp [hx]
+      have h2 : (w.arch pi).mask.filter (fun c => (info c).callbacks && !(w.arch pi).mask.contains c) = [] := by
+        rw [List.filter_eq_nil_iff]; intro x hx; simp [hx]
+      rw [h1, h2]; rfl
+  · -- the entity moves
+    rw [hcm] at hm hmask
+    have hne : pf.final ≠ (w.arch pi).mask := by
+      intro heq
+      have hk1 : KeysOK (w.getArch pf.final (w.arch pi).shared).1 := keysOK_getArch hi.keys pf.final _ hfok
+      have hpi1 : pi < (w.getArch pf.final (w.arch pi).shared).1.archs.length :=
+        Nat.lt_of_lt_of_le hpi (getArch_length_le w pf.final _)
+      have ha : (w.getArch pf.final (w.arch pi).shared).1.arch pi = w.arch pi := getArch_arch_lt w _ _ pi hpi
+      exact hti (hk1.distinct _ pi (getArch_idx_lt w pf.final _) hpi1 (by rw [hkey.1, ha, heq]) (by rw [hkey.2, ha]))
+    have hcond : (decide (pi = (w.getArch pf.final (w.arch pi).shared).2) || (w.arch pi).mask == pf.final) = false := by
+      have h1 : ¬ pi = (w.getArch pf.final (w.arch pi).shared).2 := fun h => hti h.symm
+      have h2 : ((w.arch pi).mask == pf.final) = false := by simpa using (Ne.symm hne)
+      simp [h1, h2]
+    have hpk : packMoved info e false (w.arch pi).mask (w.arch pi).shared w pf = (w2, cbs1) := by
+      unfold packMoved
+      simp only [Bool.false_eq_true, if_false, hgloc, hcond, hsome]
+    rw [hpk]
+    have hks : KeysSame (w.getArch pf.final (w.arch pi).shared).1 w2 :=
+      externalMove_keysSame info _ _ e pi i _ (w2, cbs1) hsome (getArch_idx_lt w pf.final _)
+    refine ⟨_, hm, hks, hmask, hshd, carry_length info _ _ _ _, ?_, ?_⟩
+    · intro x hx hns
+      rw [carry_get info _ _ _ _ x hx]
+      by_cases hxp : x ∈ (w.arch pi).mask
+      · rw [if_pos hxp, carried_of_mem info _ _ _ x hxp]
+      · rw [if_neg hxp, carried_of_not_mem info _ _ _ x hxp, contains_false_iff.mpr hns]; rfl
+    · have hw1pi : (w.getArch pf.final (w.arch pi).shared).1.arch pi = w.arch pi := getArch_arch_lt w _ _ pi hpi
+      have hcbs : cbs1 = moveCbs info (w.getArch pf.final (w.arch pi).shared).1 (w.getArch pf.final (w.arch pi).shared).2 e pi
+            (Mask.ofList (pf.src.map (·.1))) ++
+          ((w.getArch pf.final (w.arch pi).shared).1.archRemove info pi i
+            ((w.getArch pf.final (w.arch pi).shared).1.arch (w.getArch pf.final (w.arch pi).shared).2).mask).2 := by
+        have := externalMove_eq2 info (w.getArch pf.final (w.arch pi).shared).1 (w.getArch pf.final (w.arch pi).shared).2 e pi i
+          (Mask.ofList (pf.src.map (·.1))) hti
+        rw [hsome] at this
+        exact (Prod.mk.inj (Option.some.inj this)).2
+      have hrow1 : ((w.getArch pf.final (w.arch pi).shared).1.arch pi).rows[i]? = some prow := by rw [hw1pi]; exact hrow
+      rw [hcbs, archRemove_cbs info _ pi i _ prow hrow1, moveCbs, hw1pi, hkey.1, hent, List.map_append, List.map_append,
+        cbAbs_assign_map hord, cbAbs_remove_map hord]
+
 end Mustache.Proofs.Refine
